@@ -763,6 +763,9 @@ func (cg *ConsumerGroup) run() {
 		// waiting to receive on the unbuffered error channel.
 		select {
 		case <-cg.done:
+			// the member ID is kept across a RebalanceInProgress error, the
+			// member is then still registered with the coordinator.
+			_ = cg.leaveGroup(memberID)
 			return
 		case cg.errs <- err:
 		}
